@@ -91,7 +91,10 @@ def w_lats(arg):
                     continue
                 tc = 5 + k % 4
                 m0 = F.es(C.me_surface(tc, k % 128, k % 2, (k * 5) % 128, 0, e0["yz"], e0["xz"], t=k % 2), 0x406B90 ^ (k % 5), ca_for(17 + k % 2, k // 2), 17 + k % 2)
-                m1 = F.es(C.me_surface(5 + (k + 1) % 4, (k * 3) % 128, 1, k % 128, 1, e1["yz"], e1["xz"]), 0x406B90 ^ (k % 5), ca_for(17 + k % 2, k // 2), 17 + k % 2)
+                # the two frames of a pair may come through different links: a DF17 squitter and a DF18 rebroadcast (ADS-R /
+                # TIS-B fine format) of the same aircraft carry the same ME field: the formats of the two frames rotate independently
+                df1 = 17 + (k // 2) % 2
+                m1 = F.es(C.me_surface(5 + (k + 1) % 4, (k * 3) % 128, 1, k % 128, 1, e1["yz"], e1["xz"]), 0x406B90 ^ (k % 5), ca_for(df1, k // 4), df1)
                 acc.out.add((e0["yz"], e0["xz"], e1["yz"], e1["xz"]))
                 if k % 11 == 0:
                     acc.n += 1
